@@ -139,6 +139,14 @@ def run(ctx, prog):
                        'FilterType variant and None is handled on both sides with the corresponding combinator; both sides parse numbers '
                        'with str::parse::<f64>; the numeric branch replaces the lexical verdict exactly for numerically indexed documents')
     mr = ctx.body('C11.R1', 'metadata_filter::matches_range')
+    # the four compared locals are found by what they ARE (a rename in /repo must not matter): the document's value under the filter key (the &String looked up in
+    # `metadata` that is also what gets parsed as a number — the match-arm binding it is copied from is not), that value parsed as f64, the filter's bound string,
+    # and the bound parsed as f64
+    VAL_FULL = r'HashMap::get\(arg:metadata, arg:filter→RangeMatch\.key\)@Some→Some\.0'
+    util.bind_role(mr, 'val_str', type_rx=r'^&alloc::string::String$', origin_rx='^%s$' % VAL_FULL, full=True, used_as=(r'str::parse$', 0))
+    util.bind_role(mr, 'val_num', type_rx=r'^f64$', origin_rx=r'^str::parse\(%s\)@Ok→Ok\.0$' % VAL_FULL, full=True)
+    util.bind_role(mr, 'bound_str', type_rx=r'^alloc::string::String$', origin_rx=r'^metadata_filter::get_bound_value\(arg:filter\)$', full=True)
+    util.bind_role(mr, 'bound_num', type_rx=r'^f64$', origin_rx=r'^str::parse\(metadata_filter::get_bound_value\(arg:filter\)\)@Ok→Ok\.0$', full=True)
     mo = flow.Origin(mr, stop_at_vars=True)
     sws = variant_switches(mr, mo, r'RangeMatch\.bound@Some→Some\.0$', CANON)
     ref = {}  # (branch, variant) -> op
@@ -161,9 +169,14 @@ def run(ctx, prog):
             branch = 'numeric' if operands and 'val_num' in operands[0] else ('lexical' if operands and 'val_str' in operands[0] else '?')
             ref[(branch, v)] = (op, operands)
     idx = {}
+    idx_full = {}   # the same cells on the fully expanded origin: (bound values, ranged map) — names no local
+    TUPLE_RX = r'^tuple\{range::Bound::(\w+)\{(.*?)\}, range::Bound::(\w+)\{(.*?)\}\}$'
     for fn, branch in (('MetadataInvertedIndex::bitmap_for_range_numeric', 'numeric'), ('MetadataInvertedIndex::bitmap_for_range_lex', 'lexical')):
         f = ctx.body('C11.R1', fn)
+        # the ranged-over map = the &BTreeMap local that is the receiver of BTreeMap::range
+        util.bind_role(f, 'values', type_rx=r'^&alloc::collections::btree::map::BTreeMap<', used_as=(r'BTreeMap::range$', 0))
         fo = flow.Origin(f, stop_at_vars=True)
+        ff = flow.Origin(f)
         for sw, m in variant_switches(f, fo, r'arg:bound$', CANON):
             for v, tg in m.items():
                 arm = arm_blocks(f, sw, tg, list(m.values()))
@@ -171,9 +184,11 @@ def run(ctx, prog):
                     c = f.call_at(b)
                     if c is not None and c.callee and c.callee.endswith('BTreeMap::range') and len(c.args) >= 2:
                         r = flow.render(fo.of_operand(c.args[1]))
-                        mm = re.match(r'^tuple\{range::Bound::(\w+)\{(.*?)\}, range::Bound::(\w+)\{(.*?)\}\}$', r)
+                        mm = re.match(TUPLE_RX, r)
                         if mm:
                             idx[(branch, v)] = ((mm.group(1), mm.group(3)), (mm.group(2), mm.group(4)), flow.render(fo.of_operand(c.args[0])))
+                            mf = re.match(TUPLE_RX, flow.render(ff.of_operand(c.args[1])))
+                            idx_full[(branch, v)] = ((mf.group(2), mf.group(4)) if mf else ('', ''), flow.render(ff.of_operand(c.args[0])))
     cells = 0
     for branch in ('numeric', 'lexical'):
         for v, (cop, cbounds) in CANON.items():
@@ -184,7 +199,12 @@ def run(ctx, prog):
             ctx.inst('C11.R1', mr.short, 'cell reference/%s/%s = %s' % (branch, v, cop), okr, 'reference: %s' % (r_,))
             cells += 1
             bound_src = 'var:num_key' if branch == 'numeric' else 'var:v'
-            oki = i_ is not None and i_[0] == cbounds and bound_src in ''.join(i_[1]) and (('by_key_numeric' in i_[2] or 'values' in i_[2]) if branch == 'numeric' else True)
+            # what the bound of the range IS, whatever the locals are called: the numeric bound as an index key; in the lexical lookup the string carried by the
+            # bound variant of this very arm
+            bound_full = 'OrderedF64::from_f64(arg:bound_num)' if branch == 'numeric' else 'arg:bound@%s→%s.0' % (v, v)
+            f_ = idx_full.get((branch, v), (('', ''), ''))
+            oki = i_ is not None and i_[0] == cbounds and (bound_src in ''.join(i_[1]) or ''.join(f_[0]) == bound_full) and (
+                ('by_key_numeric' in i_[2] or 'values' in i_[2] or 'MetadataInvertedIndex.by_key_numeric' in f_[1]) if branch == 'numeric' else True)
             ctx.inst('C11.R1', 'MetadataInvertedIndex::bitmap_for_range_%s' % ('numeric' if branch == 'numeric' else 'lex'), 'cell index/%s/%s = %s' % (branch, v, cbounds), oki, 'index: %s' % (i_,))
             cells += 1
     ctx.floor('C11.R1', 'range table cells', cells, 16, '4 variants × 2 branches × 2 sides')
